@@ -231,12 +231,12 @@ func (V *Verifier) queryText(o *Oblig) string {
 // instantiateUnfolds adds (F.unfold args) for every ground application
 // (F args) occurring in text — "fuel" levels deep.
 func (V *Verifier) instantiateUnfolds(text string, fuel int) string {
-	if len(V.unfolds) == 0 {
-		return ""
-	}
 	want := map[string]bool{}
 	for f := range V.unfolds {
 		want[f] = true
+	}
+	for _, k := range V.U.tagOrder {
+		want["box."+strings.TrimPrefix(tagSym(k), "tag.")] = true
 	}
 	seen := map[string]bool{}
 	var out strings.Builder
@@ -261,8 +261,14 @@ func (V *Verifier) instantiateUnfolds(text string, fuel int) string {
 		for _, k := range keys {
 			seen[k] = true
 			app := apps[k]
+			if h := app.Head(); strings.HasPrefix(h, "box.") {
+				// ground instance of the boxing axioms
+				base := strings.TrimPrefix(h, "box.")
+				fmt.Fprintf(&next, "(assert (and (= (dyn %s) tag.%s) (= (unbox.%s %s) %s) (inv.Any %s)))\n", app.String(), base, base, app.String(), app.List[1].String(), app.String())
+				continue
+			}
 			uf := V.unfolds[app.Head()]
-			if len(uf.Args) != len(app.List)-1 {
+			if uf == nil || len(uf.Args) != len(app.List)-1 {
 				continue
 			}
 			// expand the body of F.unfold with the actual arguments so that
@@ -451,7 +457,7 @@ func (V *Verifier) macroHasUnfoldable(name string, seen map[string]bool) bool {
 	res := false
 	if sg != nil && sg.Body != nil && !strings.HasSuffix(name, ".unfold") {
 		for _, s := range allSyms(sg.Body) {
-			if _, ok := V.unfolds[s]; ok {
+			if _, ok := V.unfolds[s]; ok || strings.HasPrefix(s, "box.") {
 				res = true
 				break
 			}
